@@ -163,6 +163,14 @@ def temp_name_prog(src):
     return lean_ops, named, fm.group(1), uses_part, ("process::id()" in fm.group(2)), arg_kinds
 
 
+def drop_closes(src, ty):
+    """true iff `impl Drop for <ty>` exists and its `drop` body calls self.close() (result used or discarded)"""
+    m = re.search(r"impl\s+Drop\s+for\s+%s\s*\{(.*?)\n\}" % ty, strip_comments(src), re.S)
+    if not m:
+        return False
+    return re.search(r"self\s*\.\s*close\s*\(\s*\)", m.group(1)) is not None
+
+
 def generate():
     files = {}
     bits = read("bits.rs")
@@ -287,8 +295,13 @@ def generate():
         "/-- `MemoryMap::new` detects failure by comparing with MAP_FAILED (true) or only with NULL (false) -/\n"
         "def MMAP_CHECKS_MAP_FAILED : Bool := %s\n"
         "/-- `skip_option` verifies that as many bytes were skipped as the length prefix announced -/\n"
-        "def SKIP_OPTION_CHECKED : Bool := %s\n\n"
-        "end Sds.Generated\n" % (munmap_factor, "true" if fail_test == "map_failed" else "false", "true" if skip_checked else "false"))
+        "def SKIP_OPTION_CHECKED : Bool := %s\n"
+        "/-- `impl Drop for RawVectorWriter / IntVectorWriter` exists and its body calls `self.close()` -/\n"
+        "def RAW_WRITER_DROP_CLOSES : Bool := %s\n"
+        "def INT_WRITER_DROP_CLOSES : Bool := %s\n\n"
+        "end Sds.Generated\n" % (munmap_factor, "true" if fail_test == "map_failed" else "false", "true" if skip_checked else "false",
+                                  "true" if drop_closes(read("raw_vector.rs"), "RawVectorWriter") else "false",
+                                  "true" if drop_closes(read("int_vector.rs"), "IntVectorWriter") else "false"))
     ops, named, fmt, uses_part, uses_pid, arg_kinds = temp_name_prog(ser)
     fmt_chars = "[" + ", ".join("'%s'" % ("\\'" if c == "'" else "\\\\" if c == "\\" else c) for c in fmt) + "]"
     files["TempName.lean"] = (
